@@ -159,7 +159,7 @@ func (g *genCtx) jsonReaderKeys(fi *FuncInfo) map[string]string {
 							desc = "raw"
 						}
 					case *AssignN:
-						if len(m.LHS) == 1 && strings.Contains(m.LHS[0], "raw") && strings.Contains(strings.Join(m.RHS, ""), ".Raw()") {
+						if len(m.LHS) == 1 && strings.HasPrefix(m.LHS[0], "L") && strings.Contains(strings.Join(m.RHS, ""), ".Raw()") {
 							desc = "raw " + m.LHS[0]
 						}
 					}
